@@ -228,6 +228,9 @@ func same(a, b ssa.Value, d int) bool {
 	case *ssa.Extract:
 		y, ok := b.(*ssa.Extract)
 		return ok && x.Index == y.Index && same(x.Tuple, y.Tuple, d-1)
+	case *ssa.BinOp:
+		y, ok := b.(*ssa.BinOp)
+		return ok && x.Op == y.Op && same(x.X, y.X, d-1) && same(x.Y, y.Y, d-1)
 	}
 	return false
 }
